@@ -16,8 +16,11 @@ CONSTANTS
   Strict = FALSE
   WithServe = FALSE
   Hist = FALSE
-INVARIANTS C15_Language C15_AuthOnlyIfAuthenticated C15_ProbeIffFailed C15_ProbeBytes C15_Status C15_OkIffComplete C15_Counters
-INVARIANTS TypeOK C02_TargetPrefix C02_ClientPrefix C02_FinToTargetAfterAll C02_FinToClientAfterAll C02_Independent C02_CompleteAtClose
-INVARIANTS C06_Silent C06_NoEarlyClose C06_CloseInstant C06_NormalClose C06_NotStuckAfterDeadline C06_DrainHolds
+  SlackEarly = 0
+  SlackLate = 0
+  SlackSched = 0
+INVARIANTS Inv_C15 C15_CountersTrackDelivery
+INVARIANTS TypeOK Inv_C02 C02_Independent C02_Buf50First
+INVARIANTS Inv_C06 Inv_C06Drain C06_NotStuckAfterDeadline
 INVARIANTS C18_NoLeak C18_ServeWaits C18_SocketsFollowHandler
 VIEW View
